@@ -248,3 +248,89 @@ Proof.
   fold a4. rewrite (sat_mul_small e b b C1'). rewrite (sat_mul_small e a4 c C2'). fold dh. fold sh.
   rewrite (sat_mul_small e (Cconj b) sh C3'). fold a4 dh sh in P. exact P.
 Qed.
+
+(* ---------------------------------------------------------------- the hypothesis EXCLUDES the range failures (KF-C10-H) *)
+(* [flush_ops e]: as [pert_ops e], but Complex::sqrt returns 0 for arguments of modulus <= 1 -- what the real Complex::sqrt does
+   below 1e-162, where re^2 + im^2 underflows (findings/C10-closed-form-scale.md).  On (x^2 - 3x + 2) / 10 the discriminant is
+   about 0.01: [quad_ops_ok] FAILS (at the square root: 0 is within eps of no square root of a non-zero number), the model returns
+   1.5 (1+e)^3 as first value -- the values -b/2a, -2c/b the real code returns for 1e-85 (x-1)(x-2) -- and the residual bound of
+   quadratic_residual_local is violated by a factor > 7.  The no-underflow / no-overflow content of the hypotheses is what
+   separates the theorems from that class. *)
+Definition flush_ops (e : R) : RoundOps := {|
+  o_radd := Rplus; o_rsub := Rminus; o_rmul := Rmult; o_rdiv := Rdiv; o_rsqrt := R_sqrt.sqrt; o_rfrac := [];
+  o_kabs := Cmod; o_kabsA := fun z => RtoC (Cmod z); o_kdivr := fun z r => (z / RtoC r)%C;
+  o_kltb := fun _ _ => false; o_kleb := fun _ _ => false; o_pow := fun z _ => z; o_polar := fun r _ => RtoC r;
+  o_add := o_add (pert_ops e); o_sub := o_sub (pert_ops e); o_mul := o_mul (pert_ops e); o_div := o_div (pert_ops e);
+  o_scale := o_scale (pert_ops e);
+  o_sqrt := fun z => if Rle_dec (Cmod z) 1 then RtoC 0 else o_sqrt (pert_ops e) z |}.
+
+Section Flush.
+Let e : R := / 4096.
+Let f : R := 1 + e.
+Let a : C := RtoC (/ 10).
+Let b : C := RtoC (-3 / 10).
+Let c : C := RtoC (2 / 10).
+Let dr : R := (9 / 100 * f - 8 / 100 * f * f) * f.
+Notation O := (flush_ops e).
+
+Lemma fl_f : 1 < f < 1.0003. Proof. unfold f, e. lra. Qed.
+Lemma fl_dr : 0 < dr <= 1. Proof. pose proof fl_f. unfold dr. split; nra. Qed.
+
+Lemma fl_disc : q_disc (o_sub O) (o_mul O) (o_scale O) a b c = RtoC dr.
+Proof.
+  unfold q_disc, a, b, c, dr. cbn [o_sub o_mul o_scale flush_ops pert_ops]. fold f.
+  repeat (rewrite <- RtoC_mult || rewrite <- RtoC_minus || rewrite <- RtoC_plus). f_equal. cbn [INR]. field.
+Qed.
+
+Lemma fl_sqrt : o_sqrt O (RtoC dr) = RtoC 0.
+Proof.
+  pose proof fl_dr. cbn [o_sqrt flush_ops]. rewrite Cmod_R, Rabs_pos_eq by lra.
+  destruct (Rle_dec dr 1) as [_|N]; [reflexivity | exfalso; lra].
+Qed.
+
+Lemma fl_sgn : q_sgn (o_sub O) (o_mul O) (o_scale O) (o_sqrt O) a b c = 1.
+Proof.
+  unfold q_sgn. rewrite fl_disc, fl_sqrt.
+  assert (Z : fst (o_mul O (Cconj b) (RtoC 0)) = 0).
+  { cbn [o_mul flush_ops pert_ops]. unfold b, RtoC, Cconj, Cmult. cbn [fst snd]. ring. }
+  rewrite Z. destruct (Rle_dec 0 0) as [_|N]; [reflexivity | exfalso; lra].
+Qed.
+
+Lemma fl_q : q_q (o_add O) (o_sub O) (o_mul O) (o_scale O) (o_sqrt O) a b c = RtoC (15 / 100 * f * f).
+Proof.
+  unfold q_q. rewrite fl_sgn, fl_disc, fl_sqrt. unfold b. cbn [o_add o_scale flush_ops pert_ops]. fold f.
+  repeat (rewrite <- RtoC_mult || rewrite <- RtoC_minus || rewrite <- RtoC_plus). f_equal. field.
+Qed.
+
+Lemma flush_excluded_lemma :
+  ~ quad_ops_ok e O a b c /\
+  exists r0 r1 : C, poly_solve (RoundRAo e O) [c; b; a] false = Ok ([r0; r1], []) /\
+    ~ (Cmod (a * r0 * r0 + b * r0 + c)%C <= 16 * e * (Cmod a * Cmod r0 * Cmod r0 + Cmod b * Cmod r0 + Cmod c)).
+Proof.
+  pose proof fl_f as Hf. pose proof fl_dr as Hd. split.
+  - unfold quad_ops_ok. cbv zeta. intros (_ & _ & _ & _ & (w & Ew & Hw) & _).
+    fold (q_disc (o_sub O) (o_mul O) (o_scale O) a b c) in Ew, Hw. rewrite fl_disc in Ew, Hw. rewrite fl_sqrt in Hw.
+    unfold relc in Hw. replace (RtoC 0 - w)%C with (- w)%C in Hw by ring. rewrite Cmod_opp in Hw.
+    assert (Zw : w = RtoC 0).
+    { apply Cmod_eq_0. pose proof (Cmod_ge_0 w). unfold e in Hw. nra. }
+    rewrite Zw in Ew. replace (RtoC 0 * RtoC 0)%C with (RtoC 0) in Ew by ring. apply RtoC_inj in Ew. lra.
+  - rewrite poly_solve_deg2_o_eq. unfold o_q. rewrite fl_q.
+    assert (Nq : RtoC (15 / 100 * f * f) <> RtoC 0) by (intros H; apply RtoC_inj in H; nra).
+    destruct (Ceq_dec (RtoC (15 / 100 * f * f)) (RtoC 0)) as [Z|_]; [contradiction|].
+    do 2 eexists. split; [reflexivity|].
+    set (y := f * f * f). assert (Hy : 1 < y < 1.001) by (unfold y; nra).
+    assert (Er0 : o_div O (RtoC (15 / 100 * f * f)) a = RtoC (3 / 2 * y)).
+    { unfold a. cbn [o_div flush_ops pert_ops]. fold f. rewrite <- RtoC_div by lra. rewrite <- RtoC_mult. f_equal. unfold y. field. }
+    rewrite Er0. unfold a, b, c.
+    repeat (rewrite <- RtoC_mult || rewrite <- RtoC_minus || rewrite <- RtoC_plus). rewrite !Cmod_R.
+    rewrite (Rabs_pos_eq (/ 10)), (Rabs_pos_eq (3 / 2 * y)), (Rabs_left (-3 / 10)), (Rabs_pos_eq (2 / 10)) by lra.
+    rewrite Rabs_left by nra. unfold e. nra.
+Qed.
+End Flush.
+
+Lemma flush_excluded_4096 :
+  let e := / 4096 in let a := RtoC (/ 10) in let b := RtoC (-3 / 10) in let c := RtoC (2 / 10) in
+  ~ quad_ops_ok e (flush_ops e) a b c /\
+  exists r0 r1 : C, poly_solve (RoundRAo e (flush_ops e)) [c; b; a] false = Ok ([r0; r1], []) /\
+    ~ (Cmod (a * r0 * r0 + b * r0 + c)%C <= 16 * e * (Cmod a * Cmod r0 * Cmod r0 + Cmod b * Cmod r0 + Cmod c)).
+Proof. exact flush_excluded_lemma. Qed.
